@@ -117,6 +117,9 @@ func markTrims(t *rapid.T, ns []*m.N) {
 				if !nextWS {
 					n.TrimR = true
 				}
+				if n.K == "verbatim" {
+					n.TrimI = rapid.Bool().Draw(t, "trimi")
+				}
 			}
 		}
 		markTrims(t, n.Body)
@@ -192,6 +195,19 @@ func c14Exemplars() []*m.Program {
 		one(&m.N{K: "include", X: m.EStr("other"), Y: &m.E{K: "hash", KS: []*m.E{m.EStr("x")}, A: []*m.E{nested}}, Only: true}),
 		one(&m.N{K: "if", X: m.EBin("==", m.EAttr(m.EAttr(nested, "a"), "b"), m.ENum(1)), Body: []*m.N{m.NText("t")}}),
 		pr(&m.E{K: "interp", A: []*m.E{m.EStr("a"), m.EAttr(m.EAttr(nested, "a"), "b"), m.EStr("b")}}))
+	// interpolations that hold brackets of their own, inside a hash, list, call
+	// or group that is the last thing before the closing delimiter: the
+	// lexer's bracket bookkeeping has to survive the interpolation
+	// ({{ 'v1' in {k:"v#{arr[0]}"}}} - the hash's brace directly before "}}")
+	ip := func(inner *m.E) *m.E { return &m.E{K: "interp", A: []*m.E{m.EStr("v"), inner, m.EStr("")}} }
+	hk := func(v *m.E) *m.E { return &m.E{K: "hash", KS: []*m.E{m.EName("k")}, A: []*m.E{v}} }
+	arr0 := m.EIdx(m.EName("arr"), m.ENum(0))
+	for _, inner := range []*m.E{arr0, {K: "group", A: []*m.E{x}}, m.ECall("cat", x), m.EAttr(hk(m.ENum(1)), "k"), m.EIdx(m.EArr(m.ENum(1), m.ENum(2)), m.ENum(1))} {
+		out = append(out, pr(m.EBin("in", m.EStr("v1"), hk(ip(inner)))), pr(m.EAttr(hk(ip(inner)), "k")), pr(m.EIdx(m.EArr(ip(inner)), m.ENum(0))),
+			pr(m.ECall("cat", ip(inner))), pr(&m.E{K: "group", A: []*m.E{ip(inner)}}), pr(hk(hk(ip(inner)))),
+			one(&m.N{K: "set", S: "y", X: hk(ip(inner))}, m.NPrint(m.EAttr(m.EName("y"), "k"))),
+			one(&m.N{K: "include", X: m.EStr("other"), Y: &m.E{K: "hash", KS: []*m.E{m.EStr("x")}, A: []*m.E{ip(inner)}}, Only: true}))
+	}
 	// words that are also operators or keywords, used as attribute names, hash
 	// keys, variables and macro names: whatever stick makes of them (several are
 	// syntax errors), it must make the same of every spelling
@@ -211,7 +227,7 @@ func init() {
 		ID:        "C14",
 		Level:     "exploration",
 		Technique: "metamorphic property-based testing (rapid): observation under a re-spelling of the token sequence must equal the observation under the canonical spelling; exhaustive single/pair boundary variation on exemplars",
-		Rule: "model programs (all tag kinds and expression forms, single- and multi-template) x re-spellings of their token sequence: at each token boundary inside {{ }} / {% %} one of \"\" (only where a conservative predicate says the tokens cannot fuse), blank, two blanks, tab, LF, CRLF, CR, mixed; quote style of plain string literals; trailing comma in array/hash literals; '-' markers on delimiters without adjacent whitespace. Multi-word operators keep their single inner blank. " +
+		Rule: "model programs (all tag kinds and expression forms, single- and multi-template) x re-spellings of their token sequence: at each token boundary inside {{ }} / {% %} one of \"\" (only where a conservative predicate says the tokens cannot fuse), blank, two blanks, tab, LF, CRLF, CR, mixed; quote style of plain string literals; trailing comma in array/hash literals; '-' markers on delimiters without adjacent whitespace. The words of not in / is not / starts with / ends with are separate tokens. " +
 			"(a) random spellings of random programs; (b) for one exemplar per tag kind and expression form (~60) exhaustive over the whitespace choice at every single boundary (and every pair of boundaries in the thorough tier). " +
 			"Oracle: same status and same output as the canonical spelling; a crash or hang of either is a violation. Non-trivial: the spelling differs at >= 1 boundary and uses no whitespace or a non-blank whitespace character somewhere; distinct by sources. Exemplars also use operator and keyword words (in, is, not, and, or, matches, if, for, with, only, as, b, starts, true, null, divisible) as attribute names, hash keys, variables and loop variables - whatever stick makes of them, every spelling must be treated alike.",
 		Assumptions: []string{"the canonical spelling's own meaning is decided by the model-based checks (C03-C11)", "the cannot-fuse predicate (model.MustSep) is conservative: it forces whitespace wherever two tokens might merge, so such boundaries are never written tight"},
